@@ -4,7 +4,7 @@ CONSTANTS Parent <- TGapParent  Area <- TGapArea  Height <- TGapHeight  Sym <- T
 CONSTANTS Targets <- TGapTargets  Vals <- ValsQ  Facs <- FacsQ  Masses <- MassesQ  Maps <- MapsQ  FracMaps <- FracMapsQ  AddMaps <- AddMapsQ  SetMaps <- SetMapsQ
 CONSTANTS AdjSets <- AdjSetsQ  EnrFracs <- EnrFracsQ  AdjMFs <- AdjMFsQ
 CONSTANTS HDom <- HDom123  HTargets <- TGapHAll  HVals <- HVals2
-CONSTANTS LeafVolCut <- LeafVolCutEnv  ScaleRaises <- ScaleRaisesEnv
+CONSTANTS WithLump <- No  LeafVolCut <- LeafVolCutEnv  ScaleRaises <- ScaleRaisesEnv
 INIT InitB
 NEXT NextB
 CONSTRAINT Bound
